@@ -175,3 +175,7 @@ package priorityqueue
 //@   requires Inv(queue)
 //@   modifies nothing
 //@   ensures [C15 C16 C17 C18] len(result) == N(queue) && (N(queue) > 0 ==> fresh(arr(result)))
+
+//@ func New
+//@   modifies nothing
+//@   ensures [C06 C15 C17] fresh(result) && Inv(result) && N(result) == 0
